@@ -197,6 +197,10 @@ class World:
             tr.add_events(list(self.events))
         if cfg["space"] == "discrete":
             space = DiscretePortfolio([self.A, self.B], [[k / 16.0, 0.0] for k in range(N_ALLOC)])
+        elif cfg["space"] == "discoff":
+            # a menu whose entry 0 is NOT flat (the flat allocation is its last entry): the null action of a discrete space is
+            # action 0, whatever it denotes
+            space = DiscretePortfolio([self.A, self.B], [[((k + 1) % N_ALLOC) / 16.0, 0.0] for k in range(N_ALLOC)])
         elif cfg["space"] == "boxcash":
             space = BoxPortfolio([impl.Cash(), self.A, self.B], low=0.0, high=1.0)
         elif cfg["space"] == "boxlots":
@@ -328,6 +332,10 @@ class World:
 
     def expected_alloc(self, j):
         """allocation denoted by the j-th in-space action (0 = null action)"""
+        if self.cfg["space"] == "discoff":
+            k = 0 if (j == 0 or not self.trade) else (j % (N_ALLOC - 1)) + 1
+            v = ((k + 1) % N_ALLOC) / 16.0
+            return {"A": v} if v else {}
         if j == 0 or not self.trade:
             return {}
         k = (j % (N_ALLOC - 1)) + 1
@@ -336,12 +344,12 @@ class World:
     def action(self, act):
         j, cls = act["id"], act["cls"]
         sp = self.cfg["space"]
-        if cls == "column" and sp in ("discrete", "disclots", "boxpos"):
+        if cls == "column" and sp in ("discrete", "disclots", "discoff", "boxpos"):
             cls = "index"              # (there the nested / fractional index class already is the wrongly shaped action)
         k = ((j % (N_ALLOC - 1)) + 1) if self.trade else 0
         hi = float(N_ALLOC) if sp == "boxlots" else 1.0
         unit = float(k) if sp == "boxlots" else k / 16.0
-        if sp in ("discrete", "disclots"):
+        if sp in ("discrete", "disclots", "discoff"):
             if cls == "ok":
                 return int(k)
             return {"shape": N_ALLOC, "above": N_ALLOC + 3, "below": -1, "nan": float("nan"), "index": 2.5}[cls]
